@@ -125,6 +125,8 @@ type PipelineJob struct {
 	sched      *taskctl.Scheduler
 	taskRunner runner.Runner
 	startTimer *time.Timer
+	// cancelRequested is set when a cancel request for the running job was acknowledged
+	cancelRequested bool
 }
 
 func (j *PipelineJob) isRunning() bool {
@@ -504,6 +506,10 @@ func (r *PipelineRunner) JobCompleted(id uuid.UUID, err error) {
 	if errors.Is(err, context.Canceled) {
 		job.Canceled = true
 	}
+	// An acknowledged cancel request must not be lost if it did not interrupt any task (e.g. between two tasks)
+	if job.cancelRequested {
+		job.Canceled = true
+	}
 
 	pipeline := job.Pipeline
 	log.
@@ -863,6 +869,9 @@ func (r *PipelineRunner) Shutdown(ctx context.Context) error {
 			r.mx.Lock()
 
 			for jobID := range r.jobsByID {
+				if job := r.jobsByID[jobID]; job.isRunning() {
+					job.cancelRequested = true
+				}
 				_ = r.cancelJobInternal(jobID)
 			}
 			r.mx.Unlock()
@@ -928,6 +937,10 @@ func (r *PipelineRunner) requestPersist() {
 func (r *PipelineRunner) CancelJob(id uuid.UUID) error {
 	r.mx.Lock()
 	defer r.mx.Unlock()
+
+	if job, ok := r.jobsByID[id]; ok && job.isRunning() {
+		job.cancelRequested = true
+	}
 
 	return r.cancelJobInternal(id)
 }
